@@ -203,6 +203,8 @@ NOTES = {
     'C04-sector-shortcut': 'round 7, first run: MISSED (shifted bond charges existed for vdot only). r_C04 shifts the bond charges of bra, operator and ket by independent constants in the inner-product cases',
     'C18-phase-cap': 'round 7, first run: MISSED (random and small exhaustive graphs need few phases). r_C18 has unions of paths of lengths 3, 5, ..., 2m+1 with the end vertex indexed last (m up to 9 quick, 15 thorough), which need a number of phases growing with m',
     'C18-int-validation': 'round 7, first run: MISSED. The same graphs are also passed with NumPy integers as vertex indices',
+    'C01-mpo-discard-small-R-rows': 'round 7, first run: MISSED (extreme scales were applied to whole tensors, so all rows of R were tiny or none). r_C01 scales one bond index by 1e-15 on the left and 1e+15 on the right tensor (object unchanged)',
+    'C09-skip-scalar-bond-step': 'round 7, first run: MISSED (exactness cases needed a sector of dimension >= 2). r_C09 has the one-dimensional sectors of extreme total charge, where exactness is the factor exp(-dt n E)',
     'C17-optree-node-children-alias': 'round 5, first run: MISSED. r_C17 builds two tree nodes from one list and extends one; engine F distinguishes keeping the *elements* of a list (allowed for nodes) from keeping the list itself',
     'C06-zero-coeff-filter-tolerance': 'first run: MISSED. r_C06 now includes parameter points scaled by 1e-9 ... 1e+12 (every parameter value is legal)',
 }
